@@ -96,3 +96,106 @@ Proof.
     + rewrite Bool.andb_true_iff, !Z.leb_le. lia.
     + split; [discriminate|]. lia.
 Qed.
+
+(* ---- the full order of the sort: (address, rule text), byte-lexicographic on the text ---- *)
+Definition rules_le (a b : cfi_rules) : Prop := rules_ltb b a = false.
+
+Lemma bytes_ltb_asym : forall a b, bytes_ltb a b = true -> bytes_ltb b a = false.
+Proof.
+  induction a as [|x a IH]; intros [|y b] H; cbn [bytes_ltb] in *; try reflexivity; try discriminate H.
+  destruct (x <? y) eqn:A.
+  - destruct (y <? x) eqn:B; [lia|]. reflexivity.
+  - destruct (y <? x) eqn:B; [discriminate H|]. apply IH. exact H.
+Qed.
+
+(* a <= b and b <= c give a <= c, with "u <= v" written as bytes_ltb v u = false *)
+Lemma bytes_le_trans : forall a b c, bytes_ltb b a = false -> bytes_ltb c b = false -> bytes_ltb c a = false.
+Proof.
+  induction a as [|x a IH]; intros b c H1 H2.
+  - destruct c; reflexivity.
+  - destruct b as [|y b]; [cbn in H1; discriminate H1|].
+    destruct c as [|z c]; [cbn in H2; discriminate H2|].
+    cbn [bytes_ltb] in *.
+    destruct (y <? x) eqn:A; [discriminate H1|]. destruct (x <? y) eqn:B.
+    + destruct (z <? y) eqn:C; [discriminate H2|]. destruct (z <? x) eqn:D; [lia|]. destruct (x <? z) eqn:E; [reflexivity|lia].
+    + assert (x = y) by lia. subst y.
+      destruct (z <? x) eqn:C; [discriminate H2|]. destruct (x <? z) eqn:D; [reflexivity|].
+      eapply IH; eassumption.
+Qed.
+
+Lemma rules_ltb_le : forall x y, rules_ltb x y = true -> rules_le x y.
+Proof.
+  intros x y H. unfold rules_le, rules_ltb in *.
+  destruct (fst x <? fst y) eqn:A.
+  - destruct (fst y <? fst x) eqn:B; [lia|]. destruct (fst y =? fst x) eqn:C; [lia|reflexivity].
+  - destruct (fst x =? fst y) eqn:B; [|discriminate H]. cbn [orb andb] in H.
+    destruct (fst y <? fst x) eqn:C; [lia|]. rewrite Z.eqb_sym, B. cbn [orb andb]. apply bytes_ltb_asym. exact H.
+Qed.
+
+Lemma rules_le_trans : forall x y z, rules_le x y -> rules_le y z -> rules_le x z.
+Proof.
+  intros x y z H1 H2. unfold rules_le, rules_ltb in *.
+  apply Bool.orb_false_iff in H1. apply Bool.orb_false_iff in H2. destruct H1 as [A1 B1], H2 as [A2 B2].
+  apply Bool.orb_false_iff. split; [lia|].
+  destruct (fst z =? fst x) eqn:E; [|reflexivity]. cbn [andb].
+  assert (fst y = fst x) by lia. assert (fst z = fst y) by lia.
+  rewrite (proj2 (Z.eqb_eq _ _) H) in B1. rewrite (proj2 (Z.eqb_eq _ _) H0) in B2. cbn [andb] in B1, B2.
+  eapply bytes_le_trans; eassumption.
+Qed.
+
+Lemma insert_cfi_sorted_full : forall x l, StronglySorted rules_le l -> StronglySorted rules_le (insert_cfi x l).
+Proof.
+  intros x l H. induction H as [|y t Ht IH Hy]; cbn [insert_cfi].
+  - constructor; constructor.
+  - destruct (rules_ltb x y) eqn:E.
+    + constructor; [constructor; assumption|].
+      apply rules_ltb_le in E. constructor; [exact E|].
+      eapply Forall_impl; [|exact Hy]. intros z Hz. eapply rules_le_trans; eassumption.
+    + constructor; [exact IH|].
+      assert (P : Permutation (insert_cfi x t) (x :: t)) by apply insert_cfi_perm.
+      apply (Permutation_Forall (Permutation_sym P)). constructor; [exact E|exact Hy].
+Qed.
+
+Lemma sort_cfi_sorted_full : forall l, StronglySorted rules_le (sort_cfi l).
+Proof.
+  induction l as [|x t IH]; [constructor|]. unfold sort_cfi in *. cbn [fold_right]. apply insert_cfi_sorted_full. exact IH.
+Qed.
+
+Lemma filter_sorted_full : forall (f : cfi_rules -> bool) l, StronglySorted rules_le l -> StronglySorted rules_le (filter f l).
+Proof.
+  intros f l H. induction H as [|x t Ht IH Hx]; cbn [filter]; [constructor|].
+  destruct (f x); [|exact IH]. constructor; [exact IH|].
+  apply Forall_forall. intros z Hz. apply filter_In in Hz. rewrite Forall_forall in Hx. apply Hx. tauto.
+Qed.
+
+Lemma selection_sorted_full : forall addr deltas, StronglySorted rules_le (take_applicable addr (sort_cfi deltas)).
+Proof.
+  intros. rewrite (take_applicable_filter addr _ (sort_cfi_sorted deltas)). apply filter_sorted_full, sort_cfi_sorted_full.
+Qed.
+
+(* what [rules_le] says: address first, then the rule text byte-lexicographically *)
+Lemma rules_le_spec : forall a b,
+  rules_le a b <-> fst a < fst b \/ (fst a = fst b /\ bytes_ltb (snd b) (snd a) = false).
+Proof.
+  intros a b. unfold rules_le, rules_ltb. rewrite Bool.orb_false_iff. split.
+  - intros [A B]. destruct (fst b =? fst a) eqn:E; [right; cbn [andb] in B; split; [lia|exact B]|left; lia].
+  - intros [H|[H1 H2]].
+    + split; [apply Z.ltb_ge; lia|]. replace (fst b =? fst a) with false by (symmetry; apply Z.eqb_neq; lia). reflexivity.
+    + split; [apply Z.ltb_ge; lia|]. rewrite H1, Z.eqb_refl. exact H2.
+Qed.
+
+Lemma selection_spec_full :
+  (forall addr deltas,
+     let sel := take_applicable addr (sort_cfi deltas) in
+     Permutation sel (filter (at_or_below addr) deltas) /\ StronglySorted addr_le sel /\
+     (forall d, In d sel <-> In d deltas /\ fst d <= addr) /\
+     StronglySorted rules_le sel) /\
+  (forall a b, rules_le a b <-> fst a < fst b \/ (fst a = fst b /\ bytes_ltb (snd b) (snd a) = false)) /\
+  (forall r addr,
+     cfi_covers r addr = true <->
+     c_size r <> 0 /\ fst (c_init r) + c_size r < 2 ^ 64 /\ fst (c_init r) <= addr < fst (c_init r) + c_size r).
+Proof.
+  refine (conj _ (conj rules_le_spec cfi_covers_spec)). intros addr deltas sel.
+  destruct (selection_spec addr deltas) as (A & B & C).
+  exact (conj A (conj B (conj C (selection_sorted_full addr deltas)))).
+Qed.
